@@ -3,8 +3,10 @@ SPECIFICATION FairSpec
 CONSTANTS
   MaxEdits = 3
   MaxRegens = 6
-  Invalid = {2}
+  Invalid = {0, 2}
   Mode = "serialized"
+  Dirs = {"main", "imp"}
+  WatchDirs = "rearm"
   Kinds = {"write", "remove"}
 INVARIANTS Converges NoOverlap NeverMixedWhenDrained
 PROPERTY EventuallyDrained
